@@ -254,13 +254,13 @@ theorem itemRewrite_wsAscii {src : List Char} {o o' : LineOffset} {cur : List Ch
   rename_i hneg ltxt hltxt rel hrel fi hfi' lineLen hlen ho' hind
   subst ho'
   obtain ⟨hle, rfl⟩ := psub_ok hrel
-  have e1 := liftL_ok hltxt
+  have e1 := liftL_eq_ok hltxt
   rw [hwhole] at e1
   cases e1
   have hrel' : Lines.byteLen pre + o.firstNonspace - o.lineStart = Lines.byteLen a + Lines.byteLen pre := by
     omega
   rw [hrel'] at hfi'
-  have e2 := liftL_ok hfi'
+  have e2 := liftL_eq_ok hfi'
   rw [hfi] at e2
   cases e2
   exact wsAscii_rewrite ha h3 hasc hrun hlead _
@@ -285,5 +285,223 @@ theorem markerAt_of {S : BState} {m pos : Nat} {cur : List Char} {ind : Int} (hm
   rw [lineIndent_of_off ho] at hind
   cases hind
   omega
+
+/-! ## 4. one list item -/
+
+theorem listItemBody_np {tok : Tok} (hk : TokSpec tok) (hko : TokOK tok) {S2 : BState} {m : Nat} {re : Bool}
+    (hI : BInv S2) : NoPanic (listItemBody tok S2 m re) := by
+  intro e h
+  unfold listItemBody at h
+  crackE h
+  · refine hko _ ?_ e h
+    exact hI.congr rfl rfl hI.lineMax
+  · have hfr := hk.frame _ _ ‹tok _ = _›
+    exact absurd_err h (psub_total (by rw [hfr.level]; simp))
+
+theorem prevEmptyEndOf_total {s : BState} {n : Nat} (h : n < s.line) : ∃ b, prevEmptyEndOf s n = .ok b := by
+  unfold prevEmptyEndOf psub
+  rw [if_pos (by omega)]
+  simp only [ok_bind]
+  split
+  · rw [if_pos (by omega)]; exact ⟨_, rfl⟩
+  · exact ⟨_, rfl⟩
+
+theorem listItem_np {tok : Tok} (hk : TokSpec tok) (hko : TokOK tok) {S : BState} {m pos : Nat}
+    {pee tight : Bool} (hI : BInv S) (hline : S.line = m) (hlt : m < S.lineMax) (hM : MarkerAt S m pos) :
+    NoPanic (listItem tok S m pos pee tight) := by
+  have hlen := hI.lineMax
+  have hpos := hM.pos
+  obtain ⟨o, cur, ho, hcur, hsplit, h0⟩ := hM
+  have hlo := hI.table m o ho
+  intro e h
+  unfold listItem at h
+  obtain ⟨o1, ho1⟩ := off_total (s := S) (i := m) (by omega)
+  have e1 := off_ok ho1
+  rw [ho] at e1
+  cases e1
+  obtain ⟨⟨o', indent, re⟩, hrw⟩ := itemRewrite_total hlo h0 hcur hsplit
+  obtain ⟨S2, hS2⟩ := setOff_total (s := { S with nodeKind := .listItem, children := [], listIndent := some S.blkIndent, blkIndent := indent, tight := true }) (i := m) (o := o')
+    (by simp only; omega)
+  simp only [ho1, hrw, hS2, ok_bind] at h
+  -- the nested state
+  obtain ⟨hok, hc⟩ := itemRewrite_spec hrw
+  obtain ⟨hend, _, _⟩ := itemRewrite_phi hrw hpos
+  have hI2 : BInv S2 := BInv.setOff (s := { S with nodeKind := .listItem, children := [], listIndent := some S.blkIndent, blkIndent := indent, tight := true })
+    (hI.congr rfl rfl hI.lineMax) hS2 ho (hok hlo) hend
+    (itemRewrite_wsAscii hlo (hI.ascii m o ho) hcur hsplit hrw)
+  obtain ⟨hm, hS2eq⟩ := setOff_ok hS2
+  simp only at hS2eq
+  have hline2 : S2.line = m := by rw [hS2eq]; exact hline
+  have hlt2 : m < S2.lineMax := by rw [hS2eq]; exact hlt
+  have hli2 : S2.listIndent = some S.blkIndent := by rw [hS2eq]
+  have hlen2 : S2.offs.length = S.offs.length := by rw [hS2eq]; simp
+  have hmax2 : S2.lineMax = S.lineMax := by rw [hS2eq]
+  have hcond : S2.isEmpty m = true ∨ IndentOk { S2 with line := m } := by
+    refine item_cond (x := o') (by rw [hS2eq]; simp [hm]) ?_
+    rw [hS2eq]
+    exact hc
+  crackE h
+  · exact listItemBody_np hk hko hI2 e h
+  all_goals (
+    have hbody := ‹listItemBody tok S2 m re = Except.ok _›
+    obtain ⟨hfr, hlt3, hle3⟩ := listItemBody_spec hk hbody hline2 hlt2 hcond
+    have hle3 := hle3 hI2.table)
+  · exact absurd_err h (prevEmptyEndOf_total hlt3)
+  · have hnone : _ = none := ‹_›
+    rw [hfr.listIndent, hli2] at hnone
+    cases hnone
+  · exact absurd_err h (setOff_total (by simp only; rw [hfr.offs]; omega))
+  · obtain ⟨_, rfl⟩ := setOff_ok ‹BState.setOff _ m o = Except.ok _›
+    exact absurd_err h (psub_total (by simp only; omega))
+  · obtain ⟨_, rfl⟩ := setOff_ok ‹BState.setOff _ m o = Except.ok _›
+    obtain ⟨_, rfl⟩ := psub_ok ‹psub _ 1 = Except.ok _›
+    refine absurd_err h (getMap_total (by simp only; omega) ?_)
+    simp only [List.length_set]
+    rw [hfr.offs]
+    omega
+
+/-! ## 5. "is the list continued?" -/
+
+theorem skip_split {ordered : Bool} {cur : List Char} {p : Nat}
+    (h : (if ordered = true then skipOrdered cur else skipBullet cur) = some p) : MarkerSplit cur p := by
+  split at h
+  · exact skipOrdered_split h
+  · exact skipBullet_split h
+
+theorem listContinue_np {test : Test} (ht : TestPure test) (hto : TestOK test) {ordered : Bool} {mc : Char}
+    {S : BState} {n : Nat} (hI : BInv S) (hline : S.line = n) :
+    NoPanic (listContinue test ordered mc S n) := by
+  have hlen := hI.lineMax
+  intro e h
+  unfold listContinue at h
+  crackE h
+  all_goals (have hn : ¬ n ≥ S.lineMax := ‹_›)
+  · exact absurd_err h (lineIndent_total (by omega))
+  · exact hto _ hI (by omega) e h
+  · have e1 := ht _ _ ‹test S = _›
+    refine absurd_err h (getLine_total (BInv.congr hI ?_ ?_ ?_).table ?_)
+    · simp only [e1]
+    · simp only [e1]
+    · simp only [e1]; exact hlen
+    · simp only [e1]; omega
+  · exact absurd_err h (markerCharOf_total (skip_split ‹_ = some _›))
+
+/-- when the list goes on, the next marker sits at the line the item loop continues with -/
+theorem listContinue_marker {test : Test} (ht : TestPure test) {ordered : Bool} {mc : Char}
+    {S S' : BState} {n p : Nat} (hI : BInv S) (hline : S.line = n)
+    (h : listContinue test ordered mc S n = .ok (some p, S')) : MarkerAt S' n p := by
+  have hlen := hI.lineMax
+  obtain ⟨rfl, hlt⟩ := listContinue_spec ht h
+  have hlt := hlt (by simp)
+  unfold listContinue at h
+  crack h
+  rename_i _ ind hind hneg _ r htest _ cur hcur _ p' hskip _ _ _
+  obtain ⟨hp, hS⟩ := h
+  simp only [Option.some.injEq] at hp
+  subst hp
+  rw [hS, hline] at hcur
+  exact markerAt_of (by omega) hind (by omega) hcur (skip_split hskip)
+
+/-! ## 6. the item loop -/
+
+theorem listLoop_np {tok : Tok} {test : Test} (hk : TokSpec tok) (ht : TestPure test) (hto : TestOK test)
+    (hko : TokOK tok) {ordered : Bool} {mc : Char} :
+    ∀ (fuel : Nat) (S : BState) (m pos : Nat) (pee tight : Bool), BInv S → S.line = m → m < S.lineMax →
+      MarkerAt S m pos → NoPanic (listLoop tok test ordered mc fuel S m pos pee tight) := by
+  intro fuel
+  induction fuel with
+  | zero => intro S m pos pee tight _ _ _ _ e h; simp [listLoop] at h; exact h.symm
+  | succ f ih =>
+    intro S m pos pee tight hI hline hlt hM e h
+    simp only [listLoop] at h
+    crackE h
+    · exact listItem_np hk hko hI hline hlt hM e h
+    · rename_i _ wi hitem
+      obtain ⟨S1, t1, p1⟩ := wi
+      obtain ⟨hfr, h1, h2⟩ := listItem_spec hk hitem hline hlt
+      exact listContinue_np ht hto (hI.of_frame hfr) rfl e h
+    · rename_i _ wi hitem wc hc _ p hsome
+      obtain ⟨S1, t1, p1⟩ := wi
+      obtain ⟨c, S2⟩ := wc
+      obtain ⟨hfr, h1, h2⟩ := listItem_spec hk hitem hline hlt
+      have hI1 := hI.of_frame hfr
+      simp only at hsome h hc
+      subst hsome
+      have hM2 := listContinue_marker ht hI1 rfl hc
+      obtain ⟨rfl, hc2⟩ := listContinue_spec ht hc
+      have hlt2 := hc2 (by simp)
+      exact ih _ _ _ _ _ hI1 rfl hlt2 hM2 e h
+
+/-! ## 7. the rule -/
+
+theorem tightenItems_total : ∀ (cs : List BNode), (∀ c ∈ cs, c.kind = .listItem) →
+    ∃ r, tightenItems cs = .ok r
+  | [], _ => ⟨[], rfl⟩
+  | c :: r, h => by
+    obtain ⟨r', hr⟩ := tightenItems_total r (fun x hx => h x (List.mem_cons_of_mem _ hx))
+    simp only [tightenItems, h c (by simp), ne_eq, not_true_eq_false, if_false, hr]
+    exact ⟨_, rfl⟩
+
+theorem listSpecial_total {s : BState} (h : s.line < s.offs.length) : ∃ b, listSpecial s = .ok b := by
+  unfold listSpecial
+  split
+  · obtain ⟨o, ho⟩ := off_total (s := s) h
+    simp only [ho, ok_bind]
+    exact ⟨_, rfl⟩
+  · exact ⟨_, rfl⟩
+
+theorem list_np {tok : Tok} {test : Test} (hk : TokSpec tok) (hsh : TokShape tok) (ht : TestPure test)
+    (hto : TestOK test) (hko : TokOK tok) {fuel : Nat} {s : BState} {silent : Bool}
+    (hI : BInv s) (hl : s.line < s.lineMax) (hi : silent = false → IndentOk s) :
+    NoPanic (listRule tok test fuel s silent) := by
+  have hlen := hI.lineMax
+  intro e h
+  unfold listRule at h
+  crackE h
+  · exact absurd_err h (lineIndent_total (by omega))
+  · exact absurd_err h (listSpecial_total (by omega))
+  · exact absurd_err h (getLine_total hI.table (by omega))
+  · exact absurd_err h (detectMarker_total _)
+  -- a marker was found (twice: ordered / bullet)
+  all_goals (have hsplit := detectMarker_split ‹detectMarker _ = Except.ok (some _)›)
+  all_goals (try (exact absurd_err h (emptyItemCheck_total _ hsplit)))
+  all_goals (try (exact absurd_err h (markerCharOf_total hsplit)))
+  -- real mode: the line is at a non-negative indent
+  all_goals (
+    have hsil : silent = false := by simpa using ‹¬silent = true›
+    obtain ⟨i, hi1, hi0⟩ := hi hsil
+    have hM : MarkerAt s s.line _ :=
+      markerAt_of (by omega) hi1 hi0 ‹s.getLine s.line = Except.ok _› hsplit)
+  all_goals (try (
+    refine listLoop_np hk ht hto hko _ _ _ _ _ _ ?_ rfl ?_ ?_ e h
+    · exact hI.congr rfl rfl hlen
+    · exact hl
+    · exact hM))
+  all_goals (
+    have hloop := ‹listLoop _ _ _ _ _ _ _ _ _ _ = Except.ok _›
+    obtain ⟨hfr, h1, h2, h3⟩ := listLoop_spec hk ht _ _ _ _ _ _ _ _ _ hloop rfl hl
+    have h3 := h3 (fun k o ho => hI.table k o ho)
+    have hitems := listLoop_shape hk hsh ht _ _ _ _ _ _ _ _ _ hloop rfl hl (fun _ hc => by simp at hc)
+    simp only at h2 h3)
+  all_goals (try (exact absurd_err h (tightenItems_total _ (fun c hc => (hitems c hc).1))))
+  all_goals (try (exact absurd_err h (psub_total (by rw [hfr.level]; simp))))
+  all_goals (try (exact absurd_err h (psub_total (by omega))))
+  all_goals (
+    obtain ⟨_, rfl⟩ := psub_ok ‹psub _ 1 = Except.ok _›
+    refine absurd_err h (getMap_total (by omega) ?_)
+    rw [hfr.offs]
+    simp only
+    omega)
+
+/-! ## 8. sanity: the 9-digit limit is what keeps `parseU32` total -/
+
+/-- nine digits are a marker (and parse), ten are not -/
+example : detectMarker "123456789. x".toList = .ok (some (10, some 123456789)) := by decide +kernel
+example : detectMarker "1234567890. x".toList = .ok none := by decide +kernel
+/-- ten digits would overflow `u32`: the limit in `ordLoop` is necessary for `parseU32_total` -/
+example : parseU32 "4294967296".toList = .error .unwrap := by decide +kernel
+/-- the marker of an ordered item is the delimiter, of a bullet item the bullet -/
+example : markerCharOf "12) x".toList 3 = .ok ')' := by decide +kernel
+example : markerCharOf "- x".toList 1 = .ok '-' := by decide +kernel
 
 end MdIt.Block
